@@ -485,6 +485,13 @@ func oracleC01(o *resOp) bool {
 		res.Probes["no-anchor-servfail"]++
 		return true
 	}
+	if truth.Bogus && truth.BogusBehindInsecure && everTampered {
+		// The bad zone sits behind an alias an insecure zone published, and responses have
+		// been altered: the alias may have been pointed elsewhere, which no validator can
+		// tell. Only the AD clauses above apply.
+		res.Probes["bogus-window-behind-altered-insecure-alias"]++
+		return true
+	}
 	if truth.Bogus {
 		if m.Rcode != dns.RcodeServerFailure {
 			hit := ""
